@@ -72,6 +72,9 @@ def run(run, binfo):
         for rhs in ('x', '%(k)s'):
             cases.append(base_case(rules={'big': [[kind + ':' + rhs]]}, rule=('name', 'big'), creds={'roles': []},
                                    target={'k': 'v'}, do_raise=(rhs == 'x')))
+    for kind in ('a.0', 'a.1', 'a.5', 'a.-1', 'roles.0', 'a.\u00b2', 'a.0.b', 'a.b.0', 'a.00', '0', '0.0'):
+        for av in ([], ['x'], [[]], [{'b': 'x'}], [{'b': []}], 's', None, {}, {'0': 'x'}, {'b': []}, [['x']], 0):
+            cases.append(base_case(rules={'p': [[kind + ':x']]}, rule=('name', 'p'), creds={'a': av, 'roles': []}, target={}))
     # registered defaults with scope types whose check string carries placeholders: a scope mismatch
     # must surface as InvalidScope (or False), never as a formatting error
     for cs in ['role:%(wanted)s', 'project_id:%(project_id)s and role:%(k)s', "'x':%(y.z)s", 'role:admin', '%(odd)s:x']:
